@@ -136,6 +136,23 @@ T = {
  "C19-s4": ("C19", ["C19"], "emacs.go dumpMacros prints its line as a Printf format (same idea as C19-s2)", "a macro whose key sequence or body contains '%'"),
  "C20-s3": ("C20", ["C20"], "internal/core/keys_unix.go GetCursorPos snapshots only k.waiting under the lock; k.reading is forgotten (same break as C20-s1 dressed as a race clean-up)", "a resize / Printf between a key-reading command and its argument key"),
  "C20-s4": ("C20", ["C20"], "internal/core/keys.go extractCursorPos cuts the reports out of the input in place; keys following a report in the same read overwrite the report handed to the requester", "a resize / Printf while the shell waits, the answer followed by typed keys in the same read"),
+ # third round (sub-agents, eight properties)
+ "C01-s5": ("C01", ["C01"], "internal/ui/prompt.go formatRightPrompt pads before the fit check: strings.Repeat with a negative count panics", "a right-side prompt or tooltip set by the application and a line reaching the right margin"),
+ "C01-s6": ("C01", ["C01"], "internal/history/sources.go Delete only resets the active source index when the active source itself is removed", "several history sources, the user cycling to the last one, the application removing an earlier one between two calls"),
+ "C03-s5": ("C03", ["C03"], "internal/keymap: the sorted sequences of a keymap are cached at the first dispatched key and only dropped by ReloadConfig", "binds added or removed through Config.Bind / Config.Binds after a first call"),
+ "C03-s6": ("C03", ["C18"], "internal/core/keys.go: keys fed by a macro are truncated to bytes on their way to the front of the queue", "a macro (or recorded keyboard macro) containing non-ASCII characters"),
+ "C04-s5": ("C04", ["C04"], "internal/term: the terminal size is cached in the process and forgotten only by the SIGWINCH watcher", "a process whose terminals differ in size from one Shell / call to the next (every worker of the display check)"),
+ "C04-s6": ("C04", ["C04"], "internal/ui/hint.go CoordinatesHint counts one row too many for a hint that fills its last row exactly", "an application hint (Hint.Set) whose width is a multiple of the terminal width, prompt not on the top row"),
+ "C08-s5": ("C08", ["C08"], "internal/history/sources.go Write: the repeated-line test is hoisted out of the loop and asks the active source only", "several sources whose newest entries differ, a line equal to the newest entry of one of them"),
+ "C08-s6": ("C08", ["C08"], "inputrc/config.go GetString answers for int variables: NewSources takes an unset history-size as given, cap 500", "no history-size configured and a source that already holds 500 entries or more"),
+ "C10-s5": ("C10", ["C10"], "internal/history/file.go: whether the file ends on a newline is checked once at load time and cached", "two sources on one file; the other writer dies inside an append; the survivor writes"),
+ "C10-s6": ("C10", ["C10"], "internal/history/file.go openHist reads through one preallocated 1 MiB scanner buffer", "one record whose JSON line is above 1 MiB"),
+ "C12-s5": ("C12", ["C12"], "inputrc/parse.go expandIncludePath: the guard loosened from \"~/\" to \"~\" while file[2:] stays", "`$include ~` (a path of one character)"),
+ "C12-s6": ("C12", ["C12"], "inputrc: $include dereferences the handler's ReadFileFunc without a nil check", "a handler made with NewConfig() and ReadFileFunc unset, a text with $include"),
+ "C19-s5": ("C19", ["C19"], "inputrc/inputrc.go escape writes octal codes without zero padding", "a sequence where an octal-escaped character is followed by an octal digit"),
+ "C19-s6": ("C19", ["C19"], "internal/keymap PrintBinds caches command -> sequences per keymap, dropped only by ReloadConfig", "dump-functions, binds changed through the API, dump-functions again"),
+ "C20-s5": ("C20", ["C20"], "internal/display WatchResize only recomputes the completion grid when compRows > 0 (which is rows-1)", "a one-row completion list displayed, then a resize to a narrower terminal"),
+ "C20-s6": ("C20", ["C20"], "internal/core/keys.go extractCursorPos: one-pass version whose report is a sub-slice of the input, overwritten by the keys that follow it in the same read", "a resize / Printf at an input wait with the next keys typed behind the answer"),
  # own mutants
  "m-C01b": ("C01", ["C01"], "internal/core/keys.go ReadKey: a read error only aborts the command when bytes were read with it (`err != nil && len(buf) > 0`): the loop spins on a failing terminal", 'an argument-reading command, then EOF/EIO at its argument read'),
  "m-C02": ("C02", ["C02"], "emacs.go selfInsert: a non-ASCII character is dropped when the buffer length is 15 mod 16", 'a non-ASCII character typed at buffer length 15, 31, ...'),
